@@ -224,8 +224,7 @@ Fixpoint spec_eval (k : key) (i : Z) (m : smsg) {struct k} : bool :=
   | KHdr _ _ | KHeader _ _ | KBody _ | KText _ | KLarger _ | KSmaller _ | KDate true _ _ => spec_text_key k m
   | KNot k' => negb (spec_eval k' i m)
   | KOr a b => spec_eval a i m || spec_eval b i m
-  | KGroup l => (fix all (l : list key) : bool :=
-                   match l with [] => true | k' :: l' => spec_eval k' i m && all l' end) l
+  | KGroup l => forallb (fun k' => spec_eval k' i m) l
   | KUnknown _ => false
   end.
 
@@ -237,7 +236,7 @@ Fixpoint supported (k : key) : bool :=
   | KUnknown _ => false
   | KNot k' => supported k'
   | KOr a b => supported a && supported b
-  | KGroup l => (fix all (l : list key) : bool := match l with [] => true | k' :: l' => supported k' && all l' end) l
+  | KGroup l => forallb supported l
   | _ => true
   end.
 
